@@ -591,9 +591,23 @@ REG.add(Contract('utils.CharToLineOffset.__init__', types={'self': 'CLO', 'src':
                  modifies=['self.src', 'self.breaks', 'self.n'],
                  ensures=[P(['C13'], 'breaks', 'self.breaks == nlpos(src)'), P(['C13'], 'length', 'self.n == len(src)'),
                           A('ghost-src', 'self.src == src')]))
-REG.add(Contract('utils.CharToLineOffset.__call__', types={'self': 'CLO', 'char_pos': 'int'}, result='tuple[int,int]',
-                 requires=[A('breaks', 'self.breaks == nlpos(self.src)'), A('length', 'self.n == len(self.src)')],
-                 ensures=[A('line-in-range', '0 <= result[0] and result[0] <= len(self.breaks)')]))
+# same function without the range restriction (used by the error paths of the readers): never raises
+REG.add(Contract(
+    'utils.CharToLineOffset.__call__', case='any-offset', types={'self': 'CLO', 'char_pos': 'int'},
+    result='tuple[int,int]',
+    requires=[A('breaks', 'self.breaks == nlpos(self.src)'), A('length', 'self.n == len(self.src)')],
+    props=['C06'], ensures=[A('line-in-range', '0 <= result[0] and result[0] <= len(self.breaks)')]))
+REG.add(Contract(
+    'utils.CharToLineOffset.__call__', case='in-range', types={'self': 'CLO', 'char_pos': 'int'}, result='tuple[int,int]',
+    requires=[A('breaks', 'self.breaks == nlpos(self.src)'), A('length', 'self.n == len(self.src)'),
+              A('offset-in-range', '0 <= char_pos and char_pos < self.n')],
+    props=['C13', 'C06'],
+    ensures=[A('line-in-range', '0 <= result[0] and result[0] <= len(self.breaks)'),
+             P(['C13'], 'line-counts-the-breaks-before',
+               'forall(j, 0, len(self.breaks), (j < result[0]) == (self.breaks[j] < char_pos))'),
+             P(['C13'], 'column-from-line-start',
+               'result[1] == (char_pos if result[0] == 0 else char_pos - self.breaks[result[0] - 1] - 1)'),
+             P(['C13'], 'column-nonnegative', 'result[1] >= 0')]))
 
 
 # ---------------------------------------------------------------------- @to_buffer(): Buffer(f(Buffer(arg)))
